@@ -377,6 +377,17 @@ def readRows (ncols : Nat) : Nat → Nat → Bytes → List (List (Option Bytes)
       let (r, e) := readRows ncols n (ridx + 1) b
       (cells :: r, e)
 
+/-- Every item `RawRowIterator` yields when it is iterated to the end WITHOUT stopping at an error
+(`deserialize/result.rs:60-82`): `remaining` is decremented per item and a failing row neither advances the slice
+nor ends the iteration, so after the first failing row the same error is produced for every remaining announced row.
+(By design: the iterator is an `ExactSizeIterator` of `rows_count` items.) -/
+def iterRows (ncols : Nat) : Nat → Bytes → List (Except (Nat × String) (List (Option Bytes)))
+  | 0, _ => []
+  | n + 1, buf =>
+    match readCells ncols 0 buf with
+    | .error e => .error e :: iterRows ncols n buf
+    | .ok (cells, b) => .ok cells :: iterRows ncols n b
+
 inductive ResultResp where
   | void
   | rows (r : RawRows)
